@@ -18,7 +18,7 @@ CONSTANTS
   NSet, Heights, NrowSet, Strategies, LevelSet, HdrSet, FootSet, SrcSet, PlaceSet,
   TitleSet, SublineSet, NewPageSet, PbRowSet, PbHdrSet, DivSet,
   FontSet, SizeSet, PaperSet, PgHFSet, PFSet, PLSet, BFSet, BLSet, UTSet, UBSet,
-  NDataSet, GPosSet, RelWSet, HdrWSet, UShapeSet, DupSet,
+  NDataSet, GPosSet, RelWSet, HdrWSet, UShapeSet, DupSet, HdrTupleSet,
   ReserveDefaultHeader,   \* TRUE: auto-populated header row is reserved
   BudgetContinuation,     \* TRUE: continuation headings at the top of a page are budgeted
   ChargeRenderedOnly,     \* TRUE: only headings that are rendered are charged, once
@@ -40,14 +40,14 @@ Cfg0 == [strat |-> "plain", n |-> 0, h |-> <<>>, nlev |-> 1, chg |-> <<>>, schg 
          font |-> 1, size |-> 9, paper |-> "letter", pghf |-> 0,
          pagefirst |-> "double", pagelast |-> "double", bodyfirst |-> "single", bodylast |-> "single",
          utop |-> "", ubot |-> "", ndata |-> 2, gpos |-> "first", relwk |-> "equal", hdrw |-> FALSE, ushape |-> "scalar",
-         dup |-> FALSE]
+         dup |-> FALSE, hdrtuple |-> FALSE]
 
 \* change vectors: chg[r] \in 0..nlev is the outermost page_by level that changes at row r
 ChgVecs(n, L) == IF n = 0 THEN {<<>>} ELSE {[r \in 1..n |-> IF r = 1 THEN 1 ELSE f[r]] : f \in [1..n -> 0..L]}
 BoolVecs(n) == IF n = 0 THEN {<<>>} ELSE {[r \in 1..n |-> IF r = 1 THEN TRUE ELSE f[r]] : f \in [1..n -> BOOLEAN]}
 ConstVec(n, v) == [r \in 1..n |-> v]
 
-NDims == 35
+NDims == 36
 Dim(k, c) ==
   CASE k = 1  -> <<"strat", Strategies>>
     [] k = 2  -> <<"n", NSet>>
@@ -87,6 +87,8 @@ Dim(k, c) ==
     \* dup: the second data column (four times as wide as the first) repeats the first column's text of the NEXT row,
     \* where it needs one line: row heights are unchanged, but equal texts occur in columns of different width
     [] k = 35 -> <<"dup", IF c.ndata >= 2 THEN DupSet ELSE {FALSE}>>
+    \* hdrtuple: the column-header rows (each with widths of its own) are handed over as a tuple instead of a list
+    [] k = 36 -> <<"hdrtuple", IF c.hdr \in {"explicit", "explicit2"} /\ c.hdrw THEN HdrTupleSet ELSE {FALSE}>>
 
 ---------------------------------------------------------------------------
 (* paginate: calculate_row_metadata + _assign_pages, as implemented         *)
@@ -180,7 +182,7 @@ DataTopV(c, p, r, first) ==
   IF ~first THEN UVec(c, c.utop, r)
   ELSE IF p = 1 /\ c.hdr = "none" THEN StyleVec(c, c.pagefirst)
   ELSE [k \in 1..Len(KeptIdx(c)) |->
-          IF TopOverrideByPosition /\ c.ushape # "scalar" /\ c.utop # "" /\ k <= Len(FrameCols(c)) /\ UPat(c, c.utop, 1, k) # ""
+          IF TopOverrideByPosition /\ c.ushape # "scalar" /\ c.utop # "" /\ RawWidth(c) > 1 /\ k <= RawWidth(c) /\ UPat(c, c.utop, 1, k) # ""
           THEN UPat(c, c.utop, 1, k) ELSE c.bodyfirst]
 DataBotV(c, p, r, last) == IF last /\ Bottom(c, p)[1] = "data" THEN StyleVec(c, Bottom(c, p)[2]) ELSE UVec(c, c.ubot, r)
 
